@@ -1,8 +1,232 @@
 /-
-  C20 — property theorems (placeholder while the end-to-end check is being built).
+  C20 — property theorems about the model of gql-client-gen (`generate`) and of encoding/json into
+  the generated types (`decode`), for every schema and every document set inside the envelope.
+
+  Envelope, on the model's syntax (all decidable, see LemCore/LemTop):
+    * `schemaOK S`      interfaces listed by object types are declared interfaces;
+    * `defOK S ft df`   the definition's root/condition type exists and is composite and its
+                        selection set is `setOK`: recursively, every response key begins with a letter
+                        (or is the unaliased `__typename`), the Go field names of the members of one
+                        selection set are distinct (this excludes the open findings F-20d/F-20e) and
+                        the response keys are distinct ignoring letter case, a fragment inside an
+                        object selection has a type condition the object satisfies, field types are
+                        declared (what validation guarantees);
+    * `data.keysOK`     in every object of the response, keys are distinct ignoring letter case;
+    * `nodupB (out.decls.map Decl.name)`  every declared identifier of the output is declared once
+                        (a decidable check on the output; operation, fragment, enum and `sel…`
+                        names do not collide — see `gen_wf` below for what is proved about it).
+  "`__typename` is selected wherever fragments are applied to an interface or union" needs no
+  hypothesis: without it `generate` reports an error (`typename_required`).
 -/
-import ApiFu.C20.Model
+import ApiFu.C20.LemTop
 
 namespace ApiFu.C20
+
+/-! ### Operations that fail validation produce no output -/
+
+theorem processDocs_validation_mem (S : Schema) :
+    ∀ (docs : List Doc) (st : St), (∃ d ∈ docs, d.valid = false) → Err.validation ∈ (processDocs S docs st).1 := by
+  intro docs
+  induction docs with
+  | nil => intro st h; obtain ⟨d, hd, _⟩ := h; cases hd
+  | cons d ds ih =>
+    intro st h
+    simp only [processDocs]
+    obtain ⟨d', hd', hv⟩ := h
+    rcases List.mem_cons.mp hd' with rfl | hd'
+    · apply List.mem_append_left
+      simp [processDoc, hv]
+    · exact List.mem_append_right _ (ih _ ⟨d', hd', hv⟩)
+
+/-- **invalid_no_output** — if any `gql(...)` document of the run fails validation (the verdict of
+    `graphql.ParseAndValidate` is a parameter of the model), `Generate` returns errors, among them a
+    validation error, and — by the type of the result — no output at all, not even for the valid
+    documents of the same run. -/
+theorem invalid_no_output (S : Schema) (docs : List Doc) (h : ∃ d ∈ docs, d.valid = false) :
+    ∃ errs, generate S docs = .error errs ∧ Err.validation ∈ errs := by
+  have hm := processDocs_validation_mem S docs {} h
+  unfold generate
+  cases he : (processDocs S docs {}).1 with
+  | nil => rw [he] at hm; cases hm
+  | cons e es => exact ⟨e :: es, by simp [he], by rw [← he]; exact hm⟩
+
+/-- Non-vacuity: a run with one valid and one invalid document yields exactly the validation error. -/
+example :
+    (match generate { types := [.object [81] [([97], .named n_Int)] [], .scalar n_Int], query := [81], mutation := none, subscription := none }
+        [{ valid := true, defs := [.op .query (some [65]) [.field none [97] []]] }, { valid := false, defs := [] }] with
+     | .error es => es == [.validation]
+     | .ok _ => false) = true := by decide
+
+/-- **errors_no_output** — more generally: whenever any definition of the run is refused (validation
+    error, missing `__typename`), nothing is emitted. -/
+theorem errors_no_output (S : Schema) (docs : List Doc) (h : (processDocs S docs {}).1 ≠ []) :
+    generate S docs = .error (processDocs S docs {}).1 := by
+  unfold generate
+  cases he : (processDocs S docs {}).1 with
+  | nil => exact absurd he h
+  | cons e es => simp [he]
+
+/-- **typename_required** — a selection set on an interface or union that applies a fragment without
+    selecting `__typename` directly is refused by the generator (so the envelope's "selects
+    `__typename` wherever it applies fragments to an interface or union" is what the tool itself
+    demands; nothing uncompilable is emitted for such operations). -/
+theorem typename_required (S : Schema) (ft : List (Name × Name)) (td : TypeDef) (hobj : td.isObject = false)
+    (sels : List Sel) (htn : typenameFieldOf sels = none) (hfrag : ∃ s ∈ sels, isFieldSel s = false)
+    (fields : Fields) (conds : Conds) (st : St) :
+    ∃ e, genSels S ft td (typenameFieldOf sels).isSome sels fields conds st = .error e := by
+  rw [htn]
+  simp only [Option.isSome_none]
+  induction sels generalizing fields conds st with
+  | nil => obtain ⟨s, hs, _⟩ := hfrag; cases hs
+  | cons s rest ih =>
+    unfold genSels
+    cases hstep : genSel S ft td false s fields conds st with
+    | error e => exact ⟨e, rfl⟩
+    | ok r =>
+      obtain ⟨f1, c1, st1⟩ := r
+      simp only
+      obtain ⟨s', hs', hf'⟩ := hfrag
+      rcases List.mem_cons.mp hs' with rfl | hs'
+      · exfalso
+        cases s' with
+        | field a n ss => simp [isFieldSel] at hf'
+        | inline c ss => simp [genSel, hobj] at hstep
+        | spread f => simp [genSel, hobj] at hstep
+      · have htn' : typenameFieldOf rest = none := by
+          cases s with
+          | field a n ss =>
+            unfold typenameFieldOf at htn
+            split at htn
+            · cases htn
+            · exact htn
+          | inline c ss => unfold typenameFieldOf at htn; exact htn
+          | spread f => unfold typenameFieldOf at htn; exact htn
+        exact ih htn' ⟨s', hs', hf'⟩ f1 c1 st1
+
+/-! ### Decoding the server's response -/
+
+/-- Declared names pairwise distinct ⇒ looking a declaration's name up finds that declaration. -/
+theorem envOK_of_nodup {env : List Decl} (h : nodupB (env.map Decl.name) = true) : EnvOK env := by
+  have hnd := (nodupB_iff _).mp h
+  intro d hd
+  unfold lookupDecl
+  cases hf : env.find? (fun d' => match d' with
+      | .enum m _ | .sel m _ _ | .typedef m _ _ => m == d.name) with
+  | none =>
+    have := List.find?_eq_none.mp hf d hd
+    cases d <;> simp [Decl.name] at this
+  | some g =>
+    have hg := List.mem_of_find?_eq_some hf
+    have hp := List.find?_some hf
+    have hname : g.name = d.name := by
+      cases g <;> simpa [Decl.name] using hp
+    rw [inj_of_nodup_map Decl.name hnd g hg d hd hname]
+
+/-- **decode_preserves_leaves** — for every schema, every run of the generator over documents inside
+    the envelope that produced output `out`, every named operation `name` of the run, and every JSON
+    value `data` that is a response to that operation (`opLeaves … = some L`: the shape the selection
+    demands, nulls only where the type allows them, `__typename` naming a possible type, fragments
+    unfolded to any depth `fuel`), whose objects have keys distinct ignoring letter case:
+
+      `json.Unmarshal(data, &v)` with `v : <name>Data` succeeds in the model of encoding/json over the
+      generated declarations, and the decoded value holds *every selected leaf* of the response —
+      scalars, enum values, nulls, empty lists, list items by index, and the fields of every
+      type-conditioned fragment (inline or named) whose type condition covers the object's
+      `__typename` — at its path, with the value the server sent.
+
+    (The full statement `leaves v = leaves data` of DESIGN.md is restricted to the *selected* leaves:
+    a response object may carry members merged in from sibling fragments that a given struct has no
+    field for; they are held by the sibling's holder, which this theorem covers as well.) -/
+theorem decode_preserves_leaves (S : Schema) (docs : List Doc) (out : Output)
+    (hS : schemaOK S = true)
+    (hgen : generate S docs = .ok out)
+    (hdocs : ∀ d ∈ docs, ∀ df ∈ d.defs, defOK S (fragTypesOf d.defs) df = true)
+    (hnames : nodupB (out.decls.map Decl.name) = true)
+    (doc : Doc) (hdoc : doc ∈ docs) (kind : OpKind) (name : Name) (sels : List Sel)
+    (hop : Def.op kind (some name) sels ∈ doc.defs)
+    (root : Name) (hroot : rootOf S kind = some root)
+    (fuel : Nat) (data : Json) (L : List LeafAt)
+    (hL : opLeaves S (fragDefsOf doc.defs) fuel root sels data = some L)
+    (hkeys : data.keysOK = true) :
+    ∃ v, Decodes out.decls (.named (name ++ n_Data)) data v ∧ ∀ x ∈ L, x ∈ leavesV v := by
+  have henv : EnvOK out.decls := envOK_of_nodup hnames
+  -- the run had no errors and `out.decls` is the final state
+  unfold generate at hgen
+  simp only at hgen
+  split at hgen
+  · rename_i herr
+    injection hgen with hgen
+    have hdecls : out.decls = (processDocs S docs {}).2.decls := by rw [← hgen]
+    have herr' : (processDocs S docs {}).1 = [] := by simpa using herr
+    have hinv0 : EnumInv ({} : St) := by intro n hn; cases hn
+    obtain ⟨_, _, hsem⟩ := processDocs_good hS henv docs {} hdocs herr' hinv0
+    have hall := hsem (by intro d hd; rw [hdecls]; exact hd) doc hdoc
+    have hfragHyp := fragHyp_fragLeaves (S := S) (env := out.decls) (defs := doc.defs) hall fuel
+    obtain ⟨r, td, ty, fwd, hr, hlk, hdecl, hlevel⟩ := hall _ hfragHyp _ hop
+    rw [hroot] at hr
+    injection hr with hr
+    subst hr
+    unfold opLeaves at hL
+    rw [hlk] at hL
+    cases td with
+    | object n fs is =>
+      cases data with
+      | obj kvs =>
+        simp only at hL
+        have hn : n = root := Schema.lookup_name hlk
+        subst hn
+        obtain ⟨hkd, hko⟩ := keysOK_obj hkeys
+        obtain ⟨ws, hd, hcov⟩ := hlevel n kvs L (fun _ => by simp [possible, TypeDef.name, hlk]) hL hkd hko
+        exact ⟨.struct ws, Decodes.typedef hdecl hd, by simpa [leavesV] using hcov⟩
+      | _ => simp at hL
+    | _ => simp at hL
+  · cases hgen
+
+/-! ### Non-vacuity of `decode_preserves_leaves`
+
+  `query Q { u { t: __typename ... on A { x } ...F } }  fragment F on B { y }` over
+  `union U = A | B`, `A { x: Int }`, `B { y: [String!] }`, with the response
+  `{"u": {"t": "B", "y": ["s"]}}`: every hypothesis of the theorem holds, and the selected leaves are
+  the aliased type name and the list item reached through the *named* fragment. -/
+
+namespace Example
+
+def A : Name := [65]
+def B : Name := [66]
+def U : Name := [85]
+def Q : Name := [81]
+def F : Name := [70]
+def u : Name := [117]
+def x : Name := [120]
+def y : Name := [121]
+def t : Name := [116]
+
+def S : Schema :=
+  { types := [ .object Q [(u, .named U)] [],
+               .union U [A, B],
+               .object A [(x, .named n_Int)] [],
+               .object B [(y, .list (.nonNull (.named n_String)))] [],
+               .scalar n_Int, .scalar n_String ],
+    query := Q, mutation := none, subscription := none }
+
+def sels : List Sel :=
+  [.field none u [.field (some t) n_typename [], .inline (some A) [.field none x []], .spread F]]
+
+def doc : Doc := { valid := true, defs := [.op .query (some Q) sels, .frag F B [.field none y []]] }
+
+def data : Json := .obj [.mk u (.obj [.mk t (.str B), .mk y (.arr [.str [115]])])]
+
+def expected : List LeafAt :=
+  [([.key u, .key t], .str B), ([.key u, .key y, .idx 0], .str [115])]
+
+example : schemaOK S = true := by decide
+example : (doc.defs.all (defOK S (fragTypesOf doc.defs))) = true := by decide
+example : (match generate S [doc] with
+    | .ok out => nodupB (out.decls.map Decl.name) && out.decls.length == 3
+    | .error _ => false) = true := by decide
+example : data.keysOK = true := by decide
+example : opLeaves S (fragDefsOf doc.defs) 1 Q sels data = some expected := by decide
+
+end Example
 
 end ApiFu.C20
